@@ -1,0 +1,89 @@
+//! Verification hooks. Compiled only with `--cfg locustdb_verif`.
+//!
+//! Re-exports of internal components so that an external harness can drive them directly,
+//! plus two process-global callback registries (named sync points and file-system effects).
+//! With no callback registered every hook is a no-op.
+use std::path::Path;
+use std::sync::{Arc, RwLock};
+
+pub use crate::bitvec::{BitVec, BitVecMut};
+pub use crate::disk_store::{BlobWriter, FileBlobWriter, VersionedChecksummedBlobWriter};
+pub use crate::disk_store::meta_store::{MetaStore, PartitionMetadata, SubpartitionMetadata};
+pub use crate::disk_store::PartitionSegment;
+pub use crate::disk_store::storage::{
+    verif_partition_filename as partition_filename, verif_sanitize_table_name as sanitize_table_name,
+    Storage,
+};
+pub use crate::disk_store::wal_segment::WalSegment;
+pub use crate::disk_store::{ColumnLoader, PartitionID};
+pub use crate::engine::data_types::{BasicType, BoxedData, Data, EncodingType};
+pub use crate::ingest::buffer::Buffer;
+pub use crate::ingest::input_column::InputColumn;
+pub use crate::ingest::raw_val::RawVal;
+pub use crate::mem_store::column_buffer::ColumnBuffer;
+pub use crate::mem_store::partition::{ColumnHandle, ColumnLocator, Partition};
+pub use crate::mem_store::table::Table;
+pub use crate::mem_store::{Codec, CodecOp, Column, DataSection, DataSource, Lru};
+pub use crate::observability::{PerfCounter, QueryPerfCounter, VerifSimpleTracer as SimpleTracer};
+pub use crate::scheduler::disk_read_scheduler::DiskReadScheduler;
+pub use crate::scheduler::inner_locustdb::verif_subpartition as subpartition;
+pub use crate::scheduler::InnerLocustDB;
+
+type GateFn = dyn Fn(&str, &str) + Send + Sync + 'static;
+type FsFn = dyn Fn(&FsEffect) + Send + Sync + 'static;
+
+lazy_static! {
+    static ref GATE: RwLock<Option<Arc<GateFn>>> = RwLock::new(None);
+    static ref FS: RwLock<Option<Arc<FsFn>>> = RwLock::new(None);
+}
+
+/// Primitive file-system effect of the file blob writer.
+#[derive(Debug, Clone, Copy, PartialEq, Eq)]
+pub enum FsOp {
+    CreateTemp,
+    Write,
+    Sync,
+    Rename,
+    Remove,
+}
+
+pub struct FsEffect<'a> {
+    pub op: FsOp,
+    /// false: about to happen, true: has happened
+    pub done: bool,
+    /// File the primitive operates on (temp file for CreateTemp/Write/Sync, source for Rename)
+    pub path: &'a Path,
+    /// Final destination (equal to `path` for Remove)
+    pub target: &'a Path,
+    /// Bytes being written (Write only)
+    pub data: &'a [u8],
+}
+
+pub fn set_gate(f: Option<Arc<GateFn>>) {
+    *GATE.write().unwrap() = f;
+}
+
+pub fn set_fs_callback(f: Option<Arc<FsFn>>) {
+    *FS.write().unwrap() = f;
+}
+
+/// Named sync point. Only ever called while the calling thread holds no database lock.
+pub fn gate(label: &str, detail: &str) {
+    let f = GATE.read().unwrap().clone();
+    if let Some(f) = f {
+        f(label, detail);
+    }
+}
+
+pub fn fs_effect(op: FsOp, done: bool, path: &Path, target: &Path, data: &[u8]) {
+    let f = FS.read().unwrap().clone();
+    if let Some(f) = f {
+        f(&FsEffect {
+            op,
+            done,
+            path,
+            target,
+            data,
+        });
+    }
+}
